@@ -1515,7 +1515,7 @@ func (p *Parser) evaluateReturn(ctx context) (Statement, error) {
 
 func (p *Parser) evaluateBreak(ctx context) (Statement, error) {
 	breakToken := p.eat()
-	breakScopes := []scope{SCOPE_FOR, SCOPE_SWITCH}
+	breakScopes := []scope{SCOPE_FOR} // A break in a switch is only possible within a loop (it terminates the loop).
 	scopeOk := false
 
 	for _, breakScope := range breakScopes {
